@@ -46,6 +46,11 @@ Fixpoint natural (dw cur : Z) (specs : list (Z * (bool * bool))) : list reg :=
         :: natural dw (a + nsize dw w) specs'
   end.
 
+(* closed form of the end of the block: with Q / P the power-of-two sizes of the n-bit / 2n-bit registers (P is Q or 2Q),
+   Mode [0,P), Input [P,P+Q), Output [P+Q,P+2Q), SetClr at the next multiple of P: 4Q addresses when P = Q, 3P otherwise *)
+Definition span (dw n : Z) : Z :=
+  let Q := nsize dw n in let P := nsize dw (2 * n) in if P =? Q then 4 * Q else 3 * P.
+
 Definition types_ok (p : params) : bool :=
   posint (p_pins p) && nonneg (p_stages p) && posint (p_aw p) && posint (p_dw p).
 
